@@ -258,7 +258,7 @@ class DAGRunConcurrentManager(DAGRunManagerLike):
                 u - Node
                 v - Node Edge
             """
-            return not self.dag.graph.edges[u, v].get(EdgeField.case_branch)
+            return self.dag.graph.edges[u, v].get(EdgeField.case_branch) is None
 
         def _filter_node(u: str) -> bool:
             """
